@@ -135,4 +135,32 @@ theorem cmp_isSome_iff (k l : EqKey) : (cmp k l).isSome ↔ k.cls = l.cls ∧ k.
   cases k <;> cases l <;> simp [cmp, cls]
 end EqKey
 
+theorem unitScale_pos : (0 : Int) < (unitScale : Int) := by
+  have : 0 < unitScale := by unfold unitScale; exact Nat.pow_pos (by omega)
+  omega
+
+theorem icmp_scale (i j : Int) : icmp (i * (unitScale : Int)) (j * (unitScale : Int)) = icmp i j := by
+  have hu := unitScale_pos
+  unfold icmp
+  have h1 : i * (unitScale : Int) < j * (unitScale : Int) ↔ i < j := Int.mul_lt_mul_right hu
+  have h2 : i * (unitScale : Int) = j * (unitScale : Int) ↔ i = j := by
+    constructor
+    · intro h; exact Int.eq_of_mul_eq_mul_right (by omega) h
+    · intro h; rw [h]
+  simp only [h1, h2]
+
+theorem scale_inj (i j : Int) : i * (unitScale : Int) = j * (unitScale : Int) ↔ i = j := by
+  have hu := unitScale_pos
+  constructor
+  · intro h; exact Int.eq_of_mul_eq_mul_right (by omega) h
+  · intro h; rw [h]
+
+theorem sortCmp_nonnull (D : Defects) (a b : Value) (ha : a.cls ≠ 0) (hb : b.cls ≠ 0) :
+    sortCmp D a b = (partialCmp D a b).getD .eq := by
+  cases a <;> simp only [Value.cls, ne_eq, not_true_eq_false] at ha <;>
+    cases b <;> simp only [Value.cls, ne_eq, not_true_eq_false] at hb <;> rfl
+
+theorem cls_zero_iff (a : Value) : a.cls = 0 ↔ a = .null := by
+  cases a <;> simp [Value.cls]
+
 end AxVerif.Value
